@@ -1201,4 +1201,27 @@ example : let s : BP Rat := ⟨[⟨.hash, ['#'], 0⟩, ⟨.word, ['p','a','n'], 
   simp only [s, List.mem_cons, List.mem_nil_iff, or_false] at ht
   rcases ht with rfl | rfl | rfl | rfl | rfl <;> cases hk
 
+/-- **RANGE_VALUES off, the converse clause at `parse_quantity`.**  With RANGE_VALUES off NO quantity has a range
+    value: for every token list between the braces, every parser state and all other extension bits — in
+    particular with ADVANCED_UNITS on, where the value goes through `parse_advanced_quantity` and not through
+    `parse_value` — the value `parse_quantity` returns is a number or a text, never `Value::Range`
+    (`Value.notRange`).  `C02_range_off` / `C02_disabled_value_is_text` said this of `range_value` and `parse_value`
+    only; a `parse_advanced_quantity` that looks for a range without asking the flag (seed C02-2: `{2-3 l}` under
+    `{ADVANCED_UNITS}`) satisfied both and violates this. -/
+theorem C02_range_off_quantity (q : List Tok) (s : BP α) (hoff : s.ext.has Gen.EXT_RANGE_VALUES = false) :
+    Value.notRange (parseQuantity q s).1.quantity.val.value.value.val :=
+  w7a_parseQuantity_no_range q s hoff
+
+/-- `{2-3 l}` under `{ADVANCED_UNITS}` (RANGE_VALUES off): the hypothesis holds; the advanced parser declines
+    (`2-3` is not numeric) and the regular one returns the text value `2-3 l` without unit.  Under
+    `{ADVANCED_UNITS, RANGE_VALUES}` the same tokens give a range with unit `l`: the flag is what decides. -/
+example : let q : List Tok := [⟨.int, ['2'], 0⟩, ⟨.minus, ['-'], 1⟩, ⟨.int, ['3'], 2⟩, ⟨.ws, [' '], 3⟩, ⟨.word, ['l'], 4⟩]
+    let s : BP Rat := ⟨q, 0, ⟨Gen.EXT_ADVANCED_UNITS⟩, toyCharSpec, #[], none⟩
+    let s2 : BP Rat := ⟨q, 0, ⟨Gen.EXT_ADVANCED_UNITS ||| Gen.EXT_RANGE_VALUES⟩, toyCharSpec, #[], none⟩
+    s.ext.has Gen.EXT_RANGE_VALUES = false ∧
+    (parseQuantity q s).1.quantity.val.value.value.val = .text ['2', '-', '3', ' ', 'l'] ∧
+    (parseQuantity q s).1.quantity.val.unit = none ∧
+    (match (parseQuantity q s2).1.quantity.val.value.value.val with | .range _ _ => true | _ => false) = true := by
+  decide
+
 end Cook
